@@ -59,6 +59,11 @@ def T.origin : T → Origin
   | .node o _ _ => o
   | _ => .new
 
+def T.isScalar : T → Bool
+  | .nil => true
+  | .prim _ => true
+  | _ => false
+
 def T.isNode : T → Bool
   | .node _ _ _ => true
   | _ => false
@@ -164,10 +169,12 @@ def NP.ext (np : NP) (r : Path) : NP :=
   | .fst t q => .fst t (q ++ r)
   | x => x
 
-/-- `child != getattr(outa, field)` on non-AST values. -/
+/-- `child != outa_child or child.__class__ is not outa_child.__class__` on non-AST values (`recurse_children`, and the
+same test on `None` / primitive list elements in `recurse_node`): equal value AND equal type, i.e. the same `Val`
+(`1`, `True` and `1.0` share `eqc` but not `rep`). -/
 def pyNe : T → T → Bool
   | .nil, .nil => false
-  | .prim v, .prim w => v.eqc != w.eqc
+  | .prim v, .prim w => v != w
   | _, _ => true
 
 /-- `not (nodef.parent is not node_parent or nodef.pfield != pfield)` for an in-tree node. -/
@@ -246,8 +253,9 @@ mutual
 def recNode (mark : T) (np : NP) (rel : Path) (outa : T) (n : T) : R :=
   match n with
   | .many _ _ _ => ⟨[], false⟩
-  | .nil => ⟨if np != .ast then [⟨[], .put .ast .nil⟩] else [], false⟩       -- `None` list element: pure-AST path
-  | .prim v => ⟨if np != .ast then [⟨[], .put .ast (.prim v)⟩] else [], false⟩
+  -- `None` / primitive list element (`kw_defaults`, `Global.names`): pure-AST path, put only if it differs from the slot
+  | .nil => ⟨if np != .ast && pyNe .nil outa then [⟨[], .put .ast .nil⟩] else [], false⟩
+  | .prim v => ⟨if np != .ast && pyNe (.prim v) outa then [⟨[], .put .ast (.prim v)⟩] else [], false⟩
   | .node o k cs =>
     match o with
     | .foreign true tid _ _ => ⟨[⟨[], .put (.foreign tid) (.node .new k (eraseL cs))⟩], false⟩   -- verified copy, no recursion
@@ -372,11 +380,6 @@ def result (mark edited : T) : T := applyOps (reconcileOps mark edited) (erase m
 /-- the marked node at path `q` (`None` when there is none) -/
 def markAt (mark : T) (q : Path) : T := (getAt mark q).getD .nil
 
-/-- Python `==` is exact on the compared pair (edited scalar, marked field). -/
-def primOK : T → T → Bool
-  | .prim v, .prim w => v.eqc != w.eqc || v == w
-  | _, _ => true
-
 def T.kind : T → Nat
   | .node _ k _ => k
   | _ => 0
@@ -395,14 +398,14 @@ def allShaped (pk : Nat) : List T → Bool
   | x :: r => pairShape pk x && allShaped pk r
 
 /-- a list field of the edited node sits over a list field of the same class and mode (for a `Dict`: whose elements are
-pairs of the same pseudo kind as the edited ones); scalars compare exactly -/
+pairs of the same pseudo kind as the edited ones) -/
 def fieldOK (m c : T) : Bool :=
   match c with
   | .many s md items =>
     (match m with
      | .many s' md' mitems => s == s' && md == md' && (md != 2 || items.isEmpty || allShaped (items.headD .nil).kind mitems)
      | _ => false)
-  | c => primOK c m
+  | _ => true
 
 def shapeOK : List T → List T → Bool
   | [], [] => true
@@ -456,10 +459,9 @@ def wfKV (mark : T) : List T → Bool
 end
 
 mutual
-/-- The node is in place and nothing reconcile looks at was edited below it: every node below is in place, scalars are `==`
-to the marked ones, list fields have the marked length and hold nodes only (a `None` / `str` element of a list field is put
-again on every reconcile: `Global.names`, `arguments.kw_defaults`, findings F8 / `no_change_false`); `Dict` pairs are in
-place with key and value in place (or `None` over `None`). -/
+/-- The node is in place and nothing reconcile looks at was edited below it: every node below is in place, scalars (fields and
+`None` / `str` elements of list fields: `Global.names`, `arguments.kw_defaults`) are the marked ones (same value and type),
+list fields have the marked length; `Dict` pairs are in place with key and value in place (or `None` over `None`). -/
 def stillN (mark : T) (np : NP) (rel : Path) : T → Bool
   | .node (.tree l) _ cs =>
     inPlace np rel l && (markAt mark (qOf l)).isNode && (markAt mark (qOf l)).kids.length == cs.length
@@ -474,7 +476,9 @@ def stillFs (mark : T) (q : Path) : Nat → List T → Bool
   | fi, c :: r => !(pyNe c (erase (markAt mark (q ++ [fi])))) && stillFs mark q (fi + 1) r
 def stillEs (mark : T) (q : Path) (fi : Nat) : Nat → List T → Bool
   | _, [] => true
-  | i, x :: r => stillN mark (.fst 0 q) [fi, i] x && stillEs mark q fi (i + 1) r
+  | i, x :: r =>
+    (if x.isScalar then !(pyNe x (erase (markAt mark (q ++ [fi, i])))) else stillN mark (.fst 0 q) [fi, i] x)
+      && stillEs mark q fi (i + 1) r
 /-- the pairs of a `Dict` -/
 def stillPs (mark : T) (q : Path) (fi : Nat) : Nat → List T → Bool
   | _, [] => true
